@@ -362,7 +362,7 @@ func BaseOnly(w *wm.World) Result {
 	exp, _ := wm.RunList(w.Infos(), true)
 	if base.Err != nil || exp.Err != nil {
 		documented := func(e error) bool {
-			return e == nil || (strings.Contains(e.Error(), "cannot convert named port for an IP destination") && w.NormalizeNS().NamedPortOnIPPossible())
+			return e == nil || (wm.IsNamedPortOnIPErr(e) && w.NormalizeNS().NamedPortOnIPPossible())
 		}
 		res.Outcome = "ERR"
 		if documented(base.Err) && documented(exp.Err) {
@@ -390,7 +390,7 @@ func Check(w *wm.World) Result {
 	exp, ca := wm.RunList(w.Infos(), true)
 	if base.Err != nil || exp.Err != nil {
 		documented := func(e error) bool {
-			return e == nil || (strings.Contains(e.Error(), "cannot convert named port for an IP destination") && w.NormalizeNS().NamedPortOnIPPossible())
+			return e == nil || (wm.IsNamedPortOnIPErr(e) && w.NormalizeNS().NamedPortOnIPPossible())
 		}
 		if documented(base.Err) && documented(exp.Err) {
 			// the documented named-port-on-IP error is permitted, not required: whether it is reached may depend on the path taken
